@@ -4,6 +4,7 @@ import (
 	"encoding/json"
 	"fmt"
 	"os"
+	"os/exec"
 	"path/filepath"
 	"runtime"
 	"sort"
@@ -31,6 +32,38 @@ type Config struct {
 	MaxProcs  int             `json:"maxprocs"`
 	MaxViol   int             `json:"max_violations"`
 	ShrinkS   int             `json:"shrink_seconds"`
+	// Isolate: every simulated run is executed in a process of its own (a child of this
+	// worker). Used for code that keeps goroutines or channels alive from one call to the
+	// next (a process-wide worker pool): such state cannot cross from one run's synctest
+	// bubble into the next one's, but it can live and die with a process.
+	Isolate bool        `json:"isolate,omitempty"`
+	Single  *SingleSpec `json:"single,omitempty"` // mode "single": the one run a child executes
+}
+
+// SingleSpec names one run for a child process: a fresh tape from Seed, or the
+// recorded values of Tape.
+type SingleSpec struct {
+	Idx    int      `json:"idx"`
+	Seed   uint64   `json:"seed"`
+	Tape   []uint32 `json:"tape,omitempty"`
+	Replay bool     `json:"replay"` // use Tape (possibly empty) instead of Seed
+	Record bool     `json:"record"`
+}
+
+// SingleOut is what a child reports: the complete result and the tape it consumed.
+type SingleOut struct {
+	Class      string           `json:"class"`
+	Detail     string           `json:"detail"`
+	Scenario   interface{}      `json:"scenario"`
+	ShapeKey   string           `json:"shape_key"`
+	Nontrivial bool             `json:"nontrivial"`
+	LogHash    string           `json:"log_hash"`
+	Steps      int              `json:"steps"`
+	SimTimeNs  int64            `json:"sim_time_ns"`
+	Strategy   string           `json:"strategy"`
+	Counters   map[string]int64 `json:"counters"`
+	Trace      []string         `json:"trace"`
+	Used       []uint32         `json:"used"`
 }
 
 // ReplayFile is the self-describing reproduction of one violating run.
@@ -48,6 +81,7 @@ type ReplayFile struct {
 	// violation depends on state that earlier runs left behind in the process.
 	Prefix    []int       `json:"prefix_runs,omitempty"`
 	PrefixWhy string      `json:"prefix_note,omitempty"`
+	Isolated  bool        `json:"explored_with_one_process_per_run,omitempty"`
 	Worker    int         `json:"explored_by_worker"`
 	NWorkers  int         `json:"explored_with_workers"`
 	MaxProcs  int         `json:"explored_at_gomaxprocs"`
@@ -120,7 +154,7 @@ func TestWorker(t *testing.T) {
 	}
 	defer os.RemoveAll(tmp)
 	rc := func(idx int, record bool) *props.RunCtx {
-		return &props.RunCtx{VerifSeed: cfg.VerifSeed, Index: idx, Tier: cfg.Tier, Record: record, TmpDir: tmp, Findings: cfg.Findings}
+		return &props.RunCtx{VerifSeed: cfg.VerifSeed, Index: idx, Tier: cfg.Tier, Record: record, TmpDir: tmp, Findings: cfg.Findings, Isolated: cfg.Isolate}
 	}
 	sum := &Summary{Worker: cfg.Worker, MaxProcs: cfg.MaxProcs, Counters: map[string]int64{}, Strategies: map[string]int64{}, Known: map[string]int64{}, KnownDetail: map[string]string{}}
 	sum.Rule = p.Rule()
@@ -152,6 +186,14 @@ func TestWorker(t *testing.T) {
 			detail = fmt.Sprintf("after %d scheduler steps no goroutine is schedulable, the call has not returned and nothing has changed for %v of real time: a goroutine is blocked on an object outside the simulation (a package-level channel or lock) or spins without reaching a yield point", si.Steps, si.Waited.Round(time.Second))
 		}
 		switch cfg.Mode {
+		case "single":
+			var used []uint32
+			if cur.tape != nil {
+				used = cur.tape.Used()
+			}
+			ob, _ := json.Marshal(SingleOut{Class: class, Detail: detail, LogHash: si.Sim.LogHash(), Steps: si.Steps, Strategy: si.Sim.Strategy, Trace: si.Sim.Trace, Used: used})
+			os.WriteFile(cfg.OutFile, ob, 0o644)
+			os.Exit(0)
 		case "replay":
 			sum.Runs = 1
 			sum.Determinism = map[string]string{"class": class, "detail": detail, "log_hash": si.Sim.LogHash()}
@@ -188,7 +230,83 @@ func TestWorker(t *testing.T) {
 		os.Exit(0)
 	})
 
+	// run executes one simulated run: here, or (Isolate) in a child process of its own.
+	nchild := 0
+	run := func(spec SingleSpec) (*core.Result, []uint32) {
+		if !cfg.Isolate || cfg.Mode == "single" {
+			var tape *core.Tape
+			if spec.Replay {
+				tape = core.ReplayTape(spec.Tape)
+			} else {
+				tape = core.NewTape(spec.Seed)
+			}
+			cur.idx, cur.tape = spec.Idx, tape
+			res := p.Run(t, tape, rc(spec.Idx, spec.Record))
+			return res, tape.Used()
+		}
+		nchild++
+		ccfg := cfg
+		ccfg.Mode, ccfg.Single = "single", &spec
+		ccfg.OutFile = filepath.Join(tmp, fmt.Sprintf("single-%d.json", nchild))
+		cb, _ := json.Marshal(ccfg)
+		cpath := filepath.Join(tmp, fmt.Sprintf("single-%d.cfg.json", nchild))
+		os.WriteFile(cpath, cb, 0o644)
+		defer os.Remove(cpath)
+		defer os.Remove(ccfg.OutFile)
+		cmd := exec.Command(os.Args[0], os.Args[1:]...)
+		env := []string{"VERIF_WORKER_CFG=" + cpath}
+		for _, e := range os.Environ() {
+			if len(e) < 17 || e[:17] != "VERIF_WORKER_CFG=" {
+				env = append(env, e)
+			}
+		}
+		cmd.Env = env
+		logPath := filepath.Join(tmp, fmt.Sprintf("single-%d.log", nchild))
+		lf, _ := os.Create(logPath)
+		defer os.Remove(logPath)
+		cmd.Stdout, cmd.Stderr = lf, lf
+		fail := func(why string) (*core.Result, []uint32) {
+			lf.Close()
+			lb, _ := os.ReadFile(logPath)
+			if len(lb) > 1500 {
+				lb = lb[len(lb)-1500:]
+			}
+			return &core.Result{Class: "machinery:isolated-run", Detail: fmt.Sprintf("the child process for run %d %s: %s", spec.Idx, why, lb)}, spec.Tape
+		}
+		if err := cmd.Start(); err != nil {
+			return fail("did not start (" + err.Error() + ")")
+		}
+		done := make(chan error, 1)
+		go func() { done <- cmd.Wait() }()
+		select {
+		case <-done:
+		case <-time.After(10 * time.Minute):
+			cmd.Process.Kill()
+			<-done
+			return fail("did not finish within 10 minutes")
+		}
+		ob, err := os.ReadFile(ccfg.OutFile)
+		if err != nil {
+			return fail("left no result")
+		}
+		lf.Close()
+		var so SingleOut
+		if err := json.Unmarshal(ob, &so); err != nil {
+			return fail("left an unreadable result")
+		}
+		return &core.Result{Class: so.Class, Detail: so.Detail, Scenario: so.Scenario, ShapeKey: so.ShapeKey, Nontrivial: so.Nontrivial, LogHash: so.LogHash,
+			Steps: so.Steps, SimTimeNs: so.SimTimeNs, Strategy: so.Strategy, Counters: so.Counters, Trace: so.Trace}, so.Used
+	}
+
 	switch cfg.Mode {
+	case "single":
+		res, used := run(*cfg.Single)
+		ob, _ := json.Marshal(SingleOut{Class: res.Class, Detail: res.Detail, Scenario: res.Scenario, ShapeKey: res.ShapeKey, Nontrivial: res.Nontrivial, LogHash: res.LogHash,
+			Steps: res.Steps, SimTimeNs: res.SimTimeNs, Strategy: res.Strategy, Counters: res.Counters, Trace: res.Trace, Used: used})
+		if err := os.WriteFile(cfg.OutFile, ob, 0o644); err != nil {
+			t.Fatal(err)
+		}
+		return
 	case "replay":
 		b, err := os.ReadFile(cfg.Replay)
 		if err != nil {
@@ -199,6 +317,7 @@ func TestWorker(t *testing.T) {
 			t.Fatal(err)
 		}
 		cfg.VerifSeed = rf.VerifSeed
+		cfg.Isolate = rf.Isolated // a replay is a process of its own anyway; the flag only tells the oracle
 		for _, pi := range rf.Prefix {
 			pc := rc(pi, false)
 			pc.VerifSeed, pc.Tier = rf.VerifSeed, rf.Tier
@@ -217,8 +336,7 @@ func TestWorker(t *testing.T) {
 	case "determinism":
 		sum.Determinism = map[string]string{}
 		for _, idx := range cfg.Indices {
-			cur.idx, cur.tape = idx, core.NewTape(runSeed(&cfg, idx))
-			res := p.Run(t, cur.tape, rc(idx, false))
+			res, _ := run(SingleSpec{Idx: idx, Seed: runSeed(&cfg, idx)})
 			sum.Determinism[fmt.Sprint(idx)] = digest(res)
 			sum.Runs++
 		}
@@ -239,11 +357,9 @@ func TestWorker(t *testing.T) {
 	}
 	for idx := cfg.Worker; idx < runs; idx += cfg.NWorkers {
 		seed := runSeed(&cfg, idx)
-		tape := core.NewTape(seed)
 		wantSample := len(sum.Samples) < 3 && (idx/cfg.NWorkers)%29 == 1
 		t0 := time.Now()
-		cur.idx, cur.tape = idx, tape
-		res := p.Run(t, tape, rc(idx, wantSample))
+		res, orig := run(SingleSpec{Idx: idx, Seed: seed, Record: wantSample})
 		if os.Getenv("VERIF_DEBUG") != "" {
 			fmt.Fprintf(os.Stderr, "run %d class=%q steps=%d strat=%s wall=%v detail=%s\n", idx, res.Class, res.Steps, res.Strategy, time.Since(t0), res.Detail)
 		}
@@ -285,21 +401,20 @@ func TestWorker(t *testing.T) {
 				continue
 			}
 			seenClass[res.Class] = true
-			orig := tape.Used()
 			class := res.Class
 			shrinkS := cfg.ShrinkS
 			if shrinkS == 0 {
 				shrinkS = 45
 			}
 			min, execs := core.Shrink(orig, func(v []uint32) bool {
-				r := p.Run(t, core.ReplayTape(v), rc(idx, false))
+				r, _ := run(SingleSpec{Idx: idx, Tape: v, Replay: true})
 				return r.Class == class
 			}, 3000, time.Duration(shrinkS)*time.Second)
-			final := p.Run(t, core.ReplayTape(min), rc(idx, true))
+			final, _ := run(SingleSpec{Idx: idx, Tape: min, Replay: true, Record: true})
 			if final.Class != class {
 				// shrinking must never change the class; fall back to the original tape
 				min = orig
-				final = p.Run(t, core.ReplayTape(min), rc(idx, true))
+				final, _ = run(SingleSpec{Idx: idx, Tape: min, Replay: true, Record: true})
 				if final.Class != class {
 					// the violation has changed this process's state (it cannot be re-executed
 					// here): report the original observation; the driver replays it in a fresh process
@@ -314,7 +429,7 @@ func TestWorker(t *testing.T) {
 			}
 			sort.Strings(fl)
 			rf := ReplayFile{Property: cfg.Property, Class: final.Class, Detail: final.Detail, VerifSeed: cfg.VerifSeed, RunIndex: idx, RunSeed: seed, Tier: cfg.Tier,
-				Tape: min, TapeFull: orig, Worker: cfg.Worker, NWorkers: cfg.NWorkers, MaxProcs: cfg.MaxProcs, TapeOrig: len(orig), ShrinkRun: execs, Findings: fl, Scenario: final.Scenario, Schedule: final.Trace, Strategy: final.Strategy, LogHash: final.LogHash}
+				Tape: min, TapeFull: orig, Worker: cfg.Worker, NWorkers: cfg.NWorkers, MaxProcs: cfg.MaxProcs, TapeOrig: len(orig), ShrinkRun: execs, Isolated: cfg.Isolate, Findings: fl, Scenario: final.Scenario, Schedule: final.Trace, Strategy: final.Strategy, LogHash: final.LogHash}
 			rb, _ := json.MarshalIndent(rf, "", " ")
 			os.MkdirAll(cfg.ReplayDir, 0o755)
 			rp := filepath.Join(cfg.ReplayDir, fmt.Sprintf("%s-seed%d-run%d.json", cfg.Property, cfg.VerifSeed, idx))
